@@ -600,7 +600,18 @@ fn maybe_reset(tracks: &[Track], must: &mut [Vec<bool>], t: &mut Tape, cx: &mut 
     if t.chance(1, 5) {
         let ti = t.idx(tracks.len());
         let tr = &tracks[ti];
-        match t.below(3) {
+        match t.below(4) {
+            3 => {
+                // one page only: preferably one that has to be dirty right now (the page of the
+                // most recent writes), otherwise any index up to one past the end
+                let marked: Vec<usize> = must[ti].iter().enumerate().filter(|(_, m)| **m).map(|(p, _)| p).collect();
+                let p = if !marked.is_empty() && t.chance(2, 3) { marked[t.idx(marked.len())] } else { t.idx(tr.bm.len() + 1) };
+                tr.bm.reset_bit(p);
+                if let Some(b) = must[ti].get_mut(p) {
+                    *b = false;
+                }
+                note!(cx, "reset_bit({})", p);
+            }
             0 => {
                 tr.bm.reset();
                 must[ti].iter_mut().for_each(|b| *b = false);
